@@ -22,6 +22,7 @@
 #include <iostream>
 #include <limits>
 #include <memory>
+#include <mutex>
 #include <sstream>
 #include <stdexcept>
 
@@ -32,6 +33,17 @@
 
 // This project:
 #include <bxdecay0/utils.h>
+
+namespace {
+
+  /// The GSL error handler is a process-wide resource
+  std::mutex & gsl_error_handler_mutex()
+  {
+    static std::mutex _mutex;
+    return _mutex;
+  }
+
+} // namespace
 
 namespace bxdecay0 {
 
@@ -51,6 +63,10 @@ namespace bxdecay0 {
     epsabs                       = 0.0;
     int count                    = 0;
     int status                   = 0;
+    // Generators may run in different threads: serialize the save/disable, integrate,
+    // restore sequence, otherwise a thread can restore the aborting handler while
+    // another one is integrating
+    std::lock_guard<std::mutex> gsl_eh_lock(gsl_error_handler_mutex());
     gsl_error_handler_t * gsl_eh = gsl_set_error_handler_off();
     while (true) {
       status = gsl_integration_qng(&F, min_, max_, epsabs, epsrel, &result, &abserr, &neval);
